@@ -211,6 +211,8 @@ def run(ctx):
     scale_safety(ctx)
     logabs_rule(ctx)
     arg_rule(ctx)
+    eq_rule(ctx)
+    rep.floor('CX-10', 2)
     rep.floor('CX-9', 1)
     rep.floor('CX-8', 1)
     rep.floor('CX-7', 2)
@@ -772,3 +774,54 @@ def arg_rule(ctx):
         rep.bad('CX-9', name, '; '.join(probs[:2]), loc=loc, key='%s: principal argument' % name)
     else:
         rep.ok('CX-9', name, '%d paths: atan2(imag, real) unless both components are zero' % len(lv), loc=loc)
+
+
+def eq_rule(ctx):
+    """CX-10: a_complex_eq is true exactly when both components are equal, a_complex_ne is its negation"""
+    rep = ctx.rep
+    for name, want_true in (('a_complex_eq', True), ('a_complex_ne', False)):
+        fn = ctx.fn('complex', name, have='none')
+        if fn is None:
+            rep.unk('CX-10', name, 'anchor vanished')
+            continue
+        loc = fn.loc(fn.entry.instrs[0])
+        try:
+            dom = CDom(getattr(ctx, 'ctab', {}), set())
+            if [t.is_fp for t, n in fn.params] != [True] * 4:
+                raise Unsupported('parameters are not four reals')
+            lv = symx.Interp(dom, lambda n: None).run(fn, [X, Y, U, V])
+            probs = []
+            for lf in lv:
+                r = dom.concrete(lf.ret) if not isinstance(lf.ret, (alg.Cond, alg.BoolOp)) else None
+                eqs = set()
+                nes = set()
+                for c in lf.pc:
+                    if isinstance(c, alg.Cond) and c.rel() in ('==', '!='):
+                        pair = frozenset((str(sp.sympify(c.a)), str(sp.sympify(c.b))))
+                        (eqs if c.rel() == '==' else nes).add(pair)
+                both = {frozenset(('x', 'u')), frozenset(('y', 'v'))}
+                if r is None:
+                    # the result is the last comparison itself: fine when the path already fixed the other component
+                    res = lf.ret
+                    if isinstance(res, alg.Cond):
+                        pair = frozenset((str(sp.sympify(res.a)), str(sp.sympify(res.b))))
+                        rel = res.rel()
+                        if want_true and not (rel == '==' and (eqs | {pair}) == both):
+                            probs.append('returns %s on the path %s' % (res, lf.pc))
+                        if not want_true and not (rel == '!=' and (eqs | {pair}) == both):
+                            probs.append('returns %s on the path %s' % (res, lf.pc))
+                    else:
+                        probs.append('result %s is not a definite truth value' % (res,))
+                    continue
+                is_equal_path = eqs == both
+                differs_path = bool(nes & both)
+                if want_true and ((r != 0) != is_equal_path) and (is_equal_path or differs_path):
+                    probs.append('returns %s on the path %s' % (r, lf.pc))
+                if not want_true and ((r != 0) != differs_path) and (is_equal_path or differs_path):
+                    probs.append('returns %s on the path %s' % (r, lf.pc))
+            if probs:
+                rep.bad('CX-10', name, '; '.join(probs[:2]), loc=loc, key='%s: component-wise comparison' % name)
+            else:
+                rep.ok('CX-10', name, '%d paths: %s exactly when both components are equal' % (len(lv), 'true' if want_true else 'false'), loc=loc)
+        except Unsupported as e:
+            rep.unk('CX-10', name, str(e), loc=loc)
